@@ -205,6 +205,14 @@ func (a *Allocation) AddChannelBind(chanBind *ChannelBind, channelLifetime, perm
 	a.channelBindingsLock.Lock()
 	defer a.channelBindingsLock.Unlock()
 
+	select {
+	case <-a.closed:
+		// The allocation was torn down while the request was in flight: a binding
+		// installed now would stay behind (with its timer) on a dead allocation.
+		return errAllocationClosed
+	default:
+	}
+
 	chanBind.allocation = a
 	replaced := false
 	for i, cb := range a.channelBindings {
